@@ -1655,7 +1655,7 @@ def eval_batch(batch):
             st.count('S:tasks:%d+' % (len(c['tasks']) // 50 * 50))
             for v in vs:
                 st.count('S:nproc:%s:%d' % (v['runner'], v['nproc']))
-            # monitors-only: the driver's acceptor (K1) and the unmemoised denotations (K2 / K2c: 6-20 s at 60 tasks) do
+            # monitors-only: the acceptor (K1: 5-7 s per 60-task trace) and the unmemoised denotations (K2 / K2c: 6-20 s) do
             # not scale to these sizes; P (Python comparison of reports, exit code, data, DB, files, teardowns) does
             shrink_left -= eval_group(c, vs, st, shrink_left, accept=False, den=False)
             st.count('S:monitors_only_K1_K2_K2c_not_run', 1 + len(vs))
